@@ -56,6 +56,11 @@ func GenDamageScript(r *Rng, mode string, hist map[string]int) []string {
 		out = append(out, fmt.Sprintf("F trunc %d", b), "F scan", "F getall", "F restore")
 		hist["damage_trunc_at_block_boundary"]++
 	}
+	// whole blocks that read back as zeros (lost in a power failure) while the blocks behind them are intact
+	for b := 0; (b+1)*bs <= size && b < 3; b++ {
+		out = append(out, fmt.Sprintf("F zeroblock %d", b), "F scan", "F getall", "F restore")
+		hist["damage_zeroed_block"]++
+	}
 	nd := 6 + r.Intn(10)
 	for i := 0; i < nd; i++ {
 		switch r.Intn(6) {
